@@ -3,7 +3,6 @@ package main
 // windows.go — rule instances shared by the time-window properties (C01, C02, C08, C10).
 
 import (
-	"os"
 	"fmt"
 	"go/constant"
 	"go/token"
@@ -1643,128 +1642,160 @@ func (a *A) soleOwnerCaller(fn *ssa.Function, allowed map[string]string, depth i
 	return owner
 }
 
-// isJumpBoundedByEveryRow: v is a slot that starts j intervals after the end of the current one
-// (currentSlot.End.Add(j * size), on the grid) where j was lowered, in a loop over the WHOLE row
-// buffer that cannot be left early except once j has reached 0, to the number of whole intervals
-// between that end and each buffered row: the jump passes over no interval that holds a row. This is
-// the one-step form of walking NextSlot() over a run of empty intervals. A jump computed from the
-// watermark alone, or from the first buffered row, does not qualify (the buffer is in arrival order).
+// isJumpBoundedByEveryRow: v is a slot obtained by shifting the current one by a whole number k of
+// intervals (on the grid: createSlotFromStart(currentSlot.End.Add(k*size)), or NewTimeSlot of
+// currentSlot.Start/End both moved by the same k*slide), and k depends on the timestamp of every
+// buffered row: its computation reads row timestamps inside a loop over the WHOLE buffer that cannot
+// be left early except once the count has reached 0. This is the one-step form of walking NextSlot()
+// over a run of empty intervals. A jump computed from the watermark alone, or from one row read by
+// position, does not qualify (the buffer is in arrival order); whether the dependence is the right
+// one (a minimum, rounded down) is arithmetic and is not decided.
 func (a *A) isJumpBoundedByEveryRow(v ssa.Value, W *types.Named) bool {
 	c, ok := v.(*ssa.Call)
-	if !ok || c.Call.StaticCallee() == nil || c.Call.StaticCallee().Name() != "createSlotFromStart" || len(c.Call.Args) != 2 {
+	if !ok || c.Call.StaticCallee() == nil {
 		return false
 	}
-	// start = <currentSlot.End>.Add(time.Duration(j) * size)
-	add, ok := c.Call.Args[1].(*ssa.Call)
-	if !ok || calleeFull(&add.Call) != "(time.Time).Add" {
+	curOf := func(x ssa.Value, want string) bool {
+		f, base := slotField(TermOf(x, nil))
+		return f == want && isFieldOf(base, qual(W), "currentSlot")
+	}
+	// shift amount of x = <currentSlot.F>.Add(amount)
+	shiftOf := func(x ssa.Value, field string) ssa.Value {
+		add, ok := x.(*ssa.Call)
+		if !ok || calleeFull(&add.Call) != "(time.Time).Add" || !curOf(add.Call.Args[0], field) {
+			return nil
+		}
+		return add.Call.Args[1]
+	}
+	localVal := func(x ssa.Value) ssa.Value { // &local: the value stored into it
+		if al, ok := x.(*ssa.Alloc); ok {
+			return singleStore(al)
+		}
+		return nil
+	}
+	var amount ssa.Value
+	switch c.Call.StaticCallee().Name() {
+	case "createSlotFromStart":
+		if len(c.Call.Args) != 2 {
+			return false
+		}
+		amount = shiftOf(c.Call.Args[1], "End")
+	case "NewTimeSlot":
+		if len(c.Call.Args) != 2 {
+			return false
+		}
+		s0, e0 := localVal(c.Call.Args[0]), localVal(c.Call.Args[1])
+		if s0 == nil || e0 == nil {
+			return false
+		}
+		as, ae := shiftOf(s0, "Start"), shiftOf(e0, "End")
+		if as == nil || ae == nil || !sameValue(as, ae) {
+			return false
+		}
+		amount = as
+	default:
 		return false
 	}
-	if f, base := slotField(TermOf(add.Call.Args[0], nil)); f != "End" || !isFieldOf(base, qual(W), "currentSlot") {
+	if amount == nil {
 		return false
 	}
-	mul, ok := add.Call.Args[1].(*ssa.BinOp)
+	// amount = k * size|slide
+	mul, ok := amount.(*ssa.BinOp)
 	if !ok || mul.Op != token.MUL {
 		return false
 	}
-	var j ssa.Value
+	var k ssa.Value
 	for _, side := range [][2]ssa.Value{{mul.X, mul.Y}, {mul.Y, mul.X}} {
 		if t := TermOf(side[1], nil); isFieldOf(t, qual(W), "size") || isFieldOf(t, qual(W), "slide") {
-			j = side[0]
+			k = side[0]
 		}
 	}
-	if j == nil {
+	if k == nil {
 		return false
-	}
-	for {
-		if cv, ok := j.(*ssa.Convert); ok {
-			j = cv.X
-			continue
-		}
-		if ct, ok := j.(*ssa.ChangeType); ok {
-			j = ct.X
-			continue
-		}
-		break
 	}
 	dataF := a.FieldOf(W, "data")
 	fn := c.Parent()
-	dbg := os.Getenv("VERIF_DEBUG") != ""
-	if dbg {
-		fmt.Fprintf(os.Stderr, "jump: j=%s leaves=%d loops=%d\n", TermOf(j, nil), len(phiLeafEdges(j)), len(rangeLoops(fn)))
-		for _, l := range rangeLoops(fn) {
-			fmt.Fprintf(os.Stderr, "  loop X=%v\n", l.X != nil && TermOf(l.X, nil).Kind == "field")
+	// backward data slice of k
+	reached := map[ssa.Value]bool{}
+	var rec func(x ssa.Value, d int)
+	rec = func(x ssa.Value, d int) {
+		if x == nil || reached[x] || d > 40 {
+			return
+		}
+		reached[x] = true
+		switch y := x.(type) {
+		case *ssa.Phi:
+			for _, e := range y.Edges {
+				rec(e, d+1)
+			}
+		case *ssa.Call:
+			if cal := y.Call.StaticCallee(); cal != nil && cal.Pkg != nil && cal.Pkg.Pkg.Path() == "time" {
+				for _, arg := range y.Call.Args {
+					rec(arg, d+1)
+				}
+			}
+		case *ssa.BinOp:
+			rec(y.X, d+1)
+			rec(y.Y, d+1)
+		case *ssa.UnOp:
+			if al, ok := y.X.(*ssa.Alloc); ok && y.Op == token.MUL {
+				for _, r := range *al.Referrers() {
+					if st, ok := r.(*ssa.Store); ok && st.Addr == ssa.Value(al) {
+						rec(st.Val, d+1)
+					}
+				}
+				return
+			}
+			rec(y.X, d+1)
+		case *ssa.Convert:
+			rec(y.X, d+1)
+		case *ssa.ChangeType:
+			rec(y.X, d+1)
+		case *ssa.FieldAddr:
+			rec(y.X, d+1)
+		case *ssa.Field:
+			rec(y.X, d+1)
+		case *ssa.Extract:
+			rec(y.Tuple, d+1)
 		}
 	}
-	// some way j comes about is an assignment inside a complete loop over the buffer, from a value
-	// that depends on the loop's row, taken when it is smaller than j
-	for _, l := range append(rangeLoops(fn)) {
+	rec(k, 0)
+	for _, l := range rangeLoops(fn) {
 		if l.X == nil {
 			continue
 		}
 		if xt := TermOf(l.X, nil); xt.Kind != "field" || xt.Field != dataF {
 			continue
 		}
-		lowered := false
-		for _, lf := range phiLeafEdges(j) {
-			leaf := lf.v
-			in, isIn := leaf.(ssa.Instruction)
-			if !isIn || !l.Blocks[in.Block()] || lf.from == nil {
+		readsRow := false
+		for x := range reached {
+			in, isIn := x.(ssa.Instruction)
+			if !isIn || !l.Blocks[in.Block()] {
 				continue
 			}
-			// depends on the row of this iteration
-			dep := false
-			seen := map[ssa.Value]bool{}
-			var rec func(x ssa.Value, d int)
-			rec = func(x ssa.Value, d int) {
-				if x == nil || seen[x] || d > 12 || dep {
-					return
-				}
-				seen[x] = true
-				if l.isElem(x) {
-					dep = true
-					return
-				}
-				if ia, ok := x.(*ssa.IndexAddr); ok && l.Blocks[ia.Block()] {
+			if l.isElem(x) {
+				readsRow = true
+			}
+			if fa, ok := x.(*ssa.FieldAddr); ok {
+				if ia, ok := fa.X.(*ssa.IndexAddr); ok {
 					if bt := TermOf(ia.X, nil); bt.Kind == "field" && bt.Field == dataF {
-						dep = true // tw.data[i] inside the loop over tw.data
-						return
+						readsRow = true // tw.data[i].Timestamp inside the loop over tw.data
 					}
-				}
-				if ins, ok := x.(ssa.Instruction); ok {
-					for _, op := range ins.Operands(nil) {
-						if *op != nil {
-							rec(*op, d+1)
-						}
-					}
-				}
-			}
-			rec(leaf, 0)
-			if !dep {
-				continue
-			}
-			// taken under k < j
-			gs := guardsOf(lf.from)
-			if len(lf.from.Succs) == 1 {
-				gs = append(gs, guardsAtEnd(lf.from, lf.from.Succs[0])...)
-			}
-			for _, g := range gs {
-				if bo, ok := g.Cond.(*ssa.BinOp); ok && g.Sense && ((bo.Op == token.LSS && bo.X == leaf) || (bo.Op == token.GTR && bo.Y == leaf)) {
-					lowered = true
 				}
 			}
 		}
-		if !lowered {
+		if !readsRow {
 			continue
 		}
-		// the loop is complete: no exit but the exhausted buffer, or j == 0 / j <= 0
+		// the loop is complete: no exit but the exhausted buffer, or the count having reached 0
 		if bad := loopEarlyExit(l, func(exit *ssa.BasicBlock) bool {
 			for _, p := range exit.Preds {
-				if !l.Blocks[p] {
-					continue
+				if p == l.Header || !l.Blocks[p] {
+					continue // the regular end of the loop, or an edge that does not come out of it
 				}
 				iff, ok := p.Instrs[len(p.Instrs)-1].(*ssa.If)
 				if !ok {
-					return false
+					continue
 				}
 				bo, ok := iff.Cond.(*ssa.BinOp)
 				if !ok || !isZeroConst(bo.Y) || !(bo.Op == token.EQL || bo.Op == token.LEQ) {
